@@ -38,14 +38,18 @@ claim("C03", "other",
       "monotonicity of CNT, and the returned dictionary is {step: count}; check_nyquist_frequency raises ValueError iff some centre frequency "
       "exceeds 1/(2 dt). Bounded (labelled): one curve per retained recording, in input order, each equal (rtol 1e-10) to the curve of that "
       "recording processed alone, Nyquist refusal - evaluated natively for every arrangement of up to 3 time steps over 1-4 recordings "
-      "(non-involutive groupings first), 4 methods x 3 policies. Also proved: the row bookkeeping of traditional_hvsr_processing and "
-      "traditional_single_azimuth_hvsr_processing for every number of recordings and every arrangement of time steps - nested loop invariants "
+      "(non-involutive groupings first), 4 methods x 3 policies. Also proved: the row bookkeeping of traditional_hvsr_processing, "
+      "traditional_single_azimuth_hvsr_processing and traditional_rotdpp_hvsr_processing for every number of recordings and every arrangement of time steps - nested loop invariants "
       "over the dictionary's groups and the recordings (group offsets OFF(t) as prefix sums of the counts, positions OFF(group)+CNT(step,i)), "
       "the scatter through hvsr_indices_to_order and the final gather - giving: row i of the result is the smoothed spectral ratio computed "
       "from kept recording i alone, the frequency vector is the centre frequencies, ValueError only if some centre frequency exceeds a "
       "recording's Nyquist frequency. In that proof the numerical stages (window, rfft, modulus, combination, smoothing) are uninterpreted "
       "array functions (their contracts are C01/C02/C10/C18) and the callee prepare_records_with_inconsistent_dt is used through its "
-      "proved contract. traditional_rotdpp_hvsr_processing and azimuthal_hvsr_processing are covered by the bounded clauses only.",
+      "proved contract. For RotDpp the row is the percentile over the azimuths (np.percentile: uninterpreted, assumed to depend at column j only "
+      "on column j of the rows it is given) of the smoothed rotated horizontal spectra over the smoothed vertical spectrum, with a third loop "
+      "invariant over the azimuths. azimuthal_hvsr_processing: one single-azimuth result per requested azimuth, in order, each computed with "
+      "that azimuth, the caller's window / smoothing / time-step policy and the caller's own fft_settings dictionary (callee = the proved "
+      "single-azimuth driver as an opaque function of the settings it is handed).",
       TB + "A-DICT (insertion-ordered dict), A-NP-MAX; monotonicity / strictness / range of the counting and offset functions are axioms justified by "
       "proved base/step lemmas (A-INDUCTION); A-COUNT-TOTAL (the per-step counts add up to the number of recordings) and smoothed vertical spectra "
       "non-zero are assumed in the driver proofs; smoothing is assumed row-wise (each output row a function of the same input row: what C02 proves "
